@@ -63,6 +63,7 @@ var universe = []string{
 	"https://f.example:8443/%E2%82%AC/caf%C3%A9?u=%7Bx%7D",
 	"http://g.example/m;v=1/n,o?s=1;t=2", // sub-delimiters a URL carries unescaped: ';' is not a legal byte of a cookie value
 	"http://k;l@g.example:81/p;q",
+	"http://h.example:8080/app?filter=\"eu\"&dir=C:\\srv&dc=z\u00fcrich", // a query carries '"', '\\' and non-ASCII bytes verbatim: no legal bytes of a cookie value
 }
 
 var salts = map[int64]string{1: "s1-salt", 2: "other-salt!", 3: "foreign-salt"}
@@ -228,6 +229,21 @@ func (in *interner) id(s string) int64 {
 	v := int64(len(in.ids))
 	in.ids[s] = v
 	return v
+}
+
+// wireValue: the value a client reads back from the Set-Cookie line net/http writes for value v
+func wireValue(v string) string {
+	if v == "" {
+		return ""
+	}
+	rec := httptest.NewRecorder()
+	http.SetCookie(rec, &http.Cookie{Name: cookieName, Value: v})
+	for _, ck := range rec.Result().Cookies() {
+		if ck.Name == cookieName {
+			return ck.Value
+		}
+	}
+	return "\x00none"
 }
 
 func keyOf(u *url.URL) string { return u.Scheme + "\x00" + u.Host + "\x00" + u.Path }
@@ -838,6 +854,19 @@ func (c *stickyComp) Run(h *hlib.History) (mons []hlib.Mon, ok bool) {
 			ck := int64(-1)
 			if issued != nil {
 				ck = in.id(*issued)
+				// net/http drops the bytes of a value that are illegal in a cookie ('"', '\\', non-ASCII, ...) when it writes
+				// Set-Cookie: the cookie on the wire is identified with the value the library produced for it (the string
+				// the model knows), whenever sanitising that value gives exactly what was issued
+				best := int64(-1)
+				for m, id := range in.ids {
+					if m != *issued && (best < 0 || id < best) && wireValue(m) == *issued {
+						best = id
+					}
+				}
+				if best >= 0 {
+					ck = best
+					hlib.Count("issued_cookies_sanitised_by_net_http", 1)
+				}
 				sim.next()
 			} else if status == 500 && routed == -1 {
 				sim.next() // NextServer() was called and failed (no server, or every weight 0: the iterator is reset)
